@@ -14,3 +14,4 @@ import NutsModel.Thm.C14
 import NutsModel.Thm.Controller
 import NutsModel.Thm.CtlTrace
 import NutsModel.Thm.C05
+import NutsModel.Thm.C05Run
